@@ -26,7 +26,8 @@ REQUIRED = ["C17.QuatRotate", "C17.QuatLength", "C17.QuatCompose", "C17.QuatAxis
             "C17.BoxNew", "C17.BoxEncapsulate", "C17.BoxTight", "C17.BoxContains", "C17.BoxClosest",
             "C17.RotationToNear"] + REAL_LAWS + [
             "Scaled.rot", "Scaled.rotax", "Scaled.rotq", "Scaled.mat1", "Scaled.mat1inv", "Scaled.mat2",
-            "Scaled.trs", "Scaled.mesh", "Scaled.box", "Scaled.real"]
+            "Scaled.trs", "Scaled.mesh", "Scaled.box", "Scaled.real",
+            "C17.ArrayLaw", "C17.ArrayLen", "C17.ArrayInputKept", "Arr.split", "Arr.large"]
 
 PARAMS = {
     "quick": dict(group_depth=4, mat_depth=2, mat_ks="{1}", mat_bound=4, mat_stride=3, mat_sim=8, mat_sim_depth=8,
@@ -35,6 +36,16 @@ PARAMS = {
                      wordlen=3, box_depth=5, real_n=20000),
 }
 
+
+# size ladder of the array-level entry points (AlgebraArrGen.tla): powers of two 2^k around which lengths are
+# generated (BigKs: more offsets), GOMAXPROCS values
+ARR = {
+    "quick": dict(Ks="{4, 8, 10, 12, 13, 14, 15}", BigKs="{13, 14, 15}", Procs="{1, 2, 3, 4, 7, 16}"),
+    "thorough": dict(Ks="{3, 4, 5, 6, 7, 8, 9, 10, 11, 12, 13, 14, 15, 16, 17}", BigKs="{12, 13, 14, 15, 16, 17}",
+                     Procs="{1, 2, 3, 4, 5, 6, 7, 8, 12, 16, 32}"),
+}
+ARR_EPS = ["TRS.TransformArray", "TRS.TransformInPlace", "Quaternion.RotateArray", "Mesh.ApplyTRS", "Mesh.Rotate",
+           "Mesh.Translate", "Mesh.Scale", "Mesh.ModifyFloat3AttributeParallelWithPoolSize"]
 
 # binary magnitude stage: of the cases of kind k, one in stride[k] (rotated by the seed) is re-emitted with
 # consecutive profiles of AlgebraScale.tla; cases are ranked within their sub-kind (kind + constructor /
@@ -164,6 +175,10 @@ def collect_cases(ctx):
 
     # (6) the same cases at other binary magnitudes
     cases += scale_cases(ctx, cases, notes)
+
+    # (7) array-level entry points on the size ladder, under several GOMAXPROCS values; design-level model first
+    chunked_map_design(ctx, notes)
+    cases = interleave(cases, array_cases(ctx, notes))
     return cases, notes
 
 
@@ -226,6 +241,65 @@ def scale_cases(ctx, cases, notes):
     return out
 
 
+def chunked_map_design(ctx, notes):
+    """Design-level model of a chunked parallel map (AlgebraArrMC.tla): the right ways of splitting an array over
+    workers cover every index exactly once; dropping the remainder / not clipping must be refuted by TLC."""
+    runs = [("ceil", None), ("remainderToLast", None), ("floorDropTail", "Covered"), ("ceilNoClip", "InRange")]
+
+    def one(run):
+        variant, expect = run
+        name = "arrmc-" + variant
+        cfg = os.path.join(ctx.scratch(name + "-cfg"), name + ".cfg")
+        write_cfg(cfg, {"MaxN": 20, "MaxW": 6, "Variant": '"%s"' % variant}, ["Covered", "NoRace", "InRange"])
+        return core.run_tlc(ctx.scratch(name), "AlgebraArrMC", name + ".cfg", files=[(cfg, name + ".cfg")],
+                            workers=1, timeout=300, heap="1g")
+
+    with ThreadPoolExecutor(max_workers=4) as ex:
+        results = list(ex.map(one, runs))
+    summary = {}
+    for (variant, expect), r in zip(runs, results):
+        ctx.add_tlc(r)
+        summary[variant] = {"states": r.distinct, "violated": r.violated}
+        if expect is None and r.rc != 0:
+            raise core.Infra("AlgebraArrMC[%s] violates %s: the model of a right design is wrong" % (variant, r.violated))
+        if expect is not None and r.violated != expect:
+            raise core.Infra("AlgebraArrMC[%s] was expected to violate %s (got %s): the model lost its teeth" %
+                             (variant, expect, r.violated))
+    notes["chunked_map_design"] = summary
+
+
+def array_cases(ctx, notes):
+    """Size ladder x GOMAXPROCS x array-level entry points, generated by TLC (AlgebraArrGen.tla)."""
+    A = ARR[ctx.tier]
+    r = _tlc(ctx, "arrgen", "AlgebraArrGen", {"Seed": ctx.seed, "Ks": A["Ks"], "BigKs": A["BigKs"], "Procs": A["Procs"]},
+             ["Emit"])
+    arr = [v for v in r.values if isinstance(v, dict) and v.get("k") == "arr"]
+    arr.sort(key=lambda c: (c["n"], c["procs"], c["ep"]))
+    eps = {c["ep"] for c in arr}
+    big = {c["ep"] for c in arr if c["n"] > 16384 and c["procs"] >= 2 and c["n"] % c["procs"]}
+    notes["array_cases"] = len(arr)
+    notes["array_lengths"] = len({c["n"] for c in arr})
+    notes["array_max_length"] = max([c["n"] for c in arr] or [0])
+    notes["array_procs"] = sorted({c["procs"] for c in arr})
+    if eps != set(ARR_EPS) or big != set(ARR_EPS):
+        raise core.Infra("vacuous: array ladder covers entry points %s (beyond 16384 with a remainder: %s)" %
+                         (sorted(eps), sorted(big)))
+    return arr
+
+
+def interleave(cases, extra):
+    """Spreads `extra` evenly through `cases` (trace shards are cut by line count; array lines are heavy)."""
+    if not extra:
+        return cases
+    out, step, j = [], max(1, len(cases) // len(extra)), 0
+    for i, c in enumerate(cases):
+        out.append(c)
+        if (i + 1) % step == 0 and j < len(extra):
+            out.append(extra[j])
+            j += 1
+    return out + extra[j:]
+
+
 def is_boundary(ln):
     return not ln.startswith('{"k":"boxenc"')
 
@@ -261,6 +335,13 @@ def execute_and_judge(ctx, vh, cases, name="main", nshards=None):
     return findings, stats, raw
 
 
+def signature(pred, case):
+    # a predicate may carry WHERE it was violated ("C17.ArrayLaw:tail"): the place becomes the last discriminator
+    name, _, where = pred.partition(":")
+    sig = "%s/%s" % (name, discriminator(case))
+    return sig + "/" + where if where else sig
+
+
 def discriminator(case):
     d = discriminator0(case)
     return d + "/scaled" if case.get("sc") else d
@@ -285,6 +366,8 @@ def discriminator0(case):
         return "real"
     if k == "boxhist":
         return "box"
+    if k == "arr":
+        return case["ep"]
     return k
 
 
@@ -298,6 +381,8 @@ def self_test(ctx, raw):
             continue
         if o["k"] in ("boxnew", "boxenc"):
             continue          # box lines depend on their predecessors; corrupted separately below
+        if o["k"] == "arr" and (o["n"] < 8192 or o["procs"] < 2):
+            continue          # the array line of the self-test is a large one
         if o["k"] not in seen:
             seen.add(o["k"])
             picked.append(o)
@@ -322,6 +407,18 @@ def self_test(ctx, raw):
             o["res"][0] += 2000 * max(1, o["mag"])
         elif k == "boxreal":
             o["pts"][0][0] = o["hi"][0] + 5
+        elif k == "arr":
+            o["sm"][-1][5] += 1          # the last element of the array-level result
+        bad.append(o)
+    # array lines: a difference reported only by the whole-array count, a short result, an input element changed,
+    # and an ill-formed line (a field missing: must be rejected, not crash the judge)
+    am = [o for o in picked if o["k"] == "arr"]
+    if not am:
+        raise core.Infra("self-test: no large array line in the trace")
+    for f in (lambda o: o.update(nd=1), lambda o: o.update(outlen=o["outlen"] - 1), lambda o: o.update(nk=2),
+              lambda o: o.pop("sm"), lambda o: o["sm"][0].pop()):
+        o = json.loads(json.dumps(am[0]))
+        f(o)
         bad.append(o)
     # binary magnitude: a scaled mat1 line whose inverse was judged; one mantissa changed, and (separately) one
     # declared unit changed (the judge must refuse the line: units are Algebra.tla's, not the harness's)
@@ -424,7 +521,7 @@ def run_family(ctx, prefix="C17"):
         if not f["pred"].startswith(prefix + "."):
             continue
         case = cases[f["id"]]
-        sig = "%s/%s" % (f["pred"], discriminator(case))
+        sig = signature(f["pred"], case)
         per_sig[sig] = per_sig.get(sig, 0) + 1
         if per_sig[sig] > 3:          # keep at most three replay files per signature
             continue
@@ -447,7 +544,7 @@ def replay_family(ctx, path, prefix="C17"):
     for f in findings:
         print("replay: %s rejected the %s case" % (f["pred"], case["k"]))
         if f["pred"].startswith(prefix + "."):
-            ctx.violation("%s/%s" % (f["pred"], discriminator(case)), "replayed", obj["case"])
+            ctx.violation(signature(f["pred"], case), "replayed", obj["case"])
     ctx.rule = "replay of one recorded case"
     ctx.nontrivial = 1
     ctx.sample({"replayed": path})
